@@ -17,7 +17,7 @@ use trust_runtime::scheduler::{
 use trust_runtime::value::{Duration, Value};
 use trust_runtime::RetainSnapshot;
 
-use super::script::{source_for, Op, Script};
+use super::script::{source_for, Op, Script, NON_MONOTONE, NON_MONOTONE_INIT};
 
 /// Last-resort bound for a thread that makes no observable progress at all (normal: < 100 ms).
 /// It is counted in controller sleep ticks of >= 2 ms each *and* in wall time, so that a
@@ -173,10 +173,34 @@ pub struct Cell {
     pub finished: AtomicU64,
     pub n: AtomicI64,
     pub bad: AtomicI64,
+    pub hbad: AtomicI64,
+}
+
+/// One executed program body, as its resource's I/O driver saw it in `write_outputs`:
+/// the values of the non-monotone shared variables the cycle started from (`o`) and left
+/// behind (`e`), in the order of `NON_MONOTONE`. `write_outputs` runs inside the cycle and so
+/// inside the shared-globals lock: the order of the log is the order of the cycles.
+#[derive(Clone, Debug)]
+pub struct Entry {
+    pub res: u8,
+    pub n: i32,
+    pub o: [i32; 6],
+    pub e: [i32; 6],
+}
+
+pub const LOG_CAP: usize = 200_000;
+
+#[derive(Default)]
+pub struct CycleLog {
+    pub entries: Mutex<Vec<Entry>>,
+    pub truncated: std::sync::atomic::AtomicBool,
 }
 
 struct Drv {
     cell: Arc<Cell>,
+    log: Arc<CycleLog>,
+    res: u8,
+    last_n: i32,
 }
 
 impl IoDriver for Drv {
@@ -185,11 +209,27 @@ impl IoDriver for Drv {
         Ok(())
     }
     fn write_outputs(&mut self, o: &[u8]) -> Result<(), RuntimeError> {
-        if o.len() >= 8 {
-            let n = i32::from_le_bytes([o[0], o[1], o[2], o[3]]);
-            let bad = i32::from_le_bytes([o[4], o[5], o[6], o[7]]);
+        if o.len() >= 60 {
+            let d = |k: usize| i32::from_le_bytes([o[4 * k], o[4 * k + 1], o[4 * k + 2], o[4 * k + 3]]);
+            let n = d(0);
             self.cell.n.store(n as i64, SeqCst);
-            self.cell.bad.store(bad as i64, SeqCst);
+            self.cell.bad.store(d(1) as i64, SeqCst);
+            self.cell.hbad.store(d(14) as i64, SeqCst);
+            if n != self.last_n {
+                // the program body ran in this cycle
+                self.last_n = n;
+                let mut log = self.log.entries.lock().unwrap();
+                if log.len() < LOG_CAP {
+                    log.push(Entry {
+                        res: self.res,
+                        n,
+                        o: [d(2), d(3), d(4), d(5), d(6), d(7)],
+                        e: [d(8), d(9), d(10), d(11), d(12), d(13)],
+                    });
+                } else {
+                    self.log.truncated.store(true, SeqCst);
+                }
+            }
         }
         self.cell.finished.fetch_add(1, SeqCst);
         Ok(())
@@ -232,6 +272,7 @@ pub fn val_i64(v: &Value) -> Option<i64> {
         Value::Int(x) => Some(*x as i64),
         Value::DInt(x) => Some(*x as i64),
         Value::LInt(x) => Some(*x),
+        Value::Bool(b) => Some(*b as i64),
         _ => None,
     }
 }
@@ -260,6 +301,7 @@ pub struct RepStats {
     pub samples: u32,
     pub pause_unobserved: bool,
     pub chased: bool,
+    pub log_truncated: bool,
 }
 
 struct Live {
@@ -298,61 +340,222 @@ struct Rig<'a> {
     stats: RepStats,
     last_counter: Vec<i64>,
     op_idx: usize,
+    cycle_log: Arc<CycleLog>,
+}
+
+fn data_err(m: String) -> RepEnd {
+    if m.starts_with("infrastructure:") {
+        RepEnd::Infra(m)
+    } else {
+        RepEnd::Violation(m)
+    }
 }
 
 fn err_v<T>(m: String) -> Result<T, RepEnd> {
     Err(RepEnd::Violation(m))
 }
 
+pub struct Prepared {
+    pub runners: Vec<(ResourceRunner<AnyClock>, Arc<Cell>, Arc<StoreLog>, AnyClock)>,
+    pub shared: SharedGlobals,
+    pub cycle_log: Arc<CycleLog>,
+}
+
+/// Compile the programs of a script and wire every runtime to its driver, store and clock.
+pub fn prepare(s: &Script, clock_kind: u8, gate: Option<&Arc<StartGate>>) -> Result<Prepared, RepEnd> {
+    let n = s.resources.len();
+    let mut runtimes = Vec::new();
+    for i in 0..n {
+        let src = source_for(s, i);
+        match TestHarness::from_source(&src) {
+            Ok(h) => runtimes.push(h.into_runtime()),
+            Err(e) => return Err(RepEnd::Infra(format!("generated source rejected: {e:?}\n{src}"))),
+        }
+    }
+    let names: Vec<SmolStr> = s.shared_names().into_iter().map(SmolStr::new).collect();
+    let shared = match SharedGlobals::from_runtime(names, &runtimes[0]) {
+        Ok(x) => x,
+        Err(e) => return Err(RepEnd::Infra(format!("SharedGlobals::from_runtime: {e:?}"))),
+    };
+    let shared_clock = ManualClock::new();
+    let cycle_log = Arc::new(CycleLog::default());
+    let mut runners = Vec::new();
+    for (i, mut rt) in runtimes.into_iter().enumerate() {
+        let res = &s.resources[i];
+        let cell = Arc::new(Cell::default());
+        let log = Arc::new(StoreLog::default());
+        rt.add_io_driver(
+            "c20",
+            Box::new(Drv { cell: cell.clone(), log: cycle_log.clone(), res: i as u8, last_n: 0 }),
+        );
+        rt.set_retain_store(
+            Some(Box::new(Store { log: log.clone(), spin: res.store_spin, init: res.retain_init })),
+            res.retain_interval_ns.map(Duration::from_nanos),
+        );
+        if res.load_retain {
+            if let Err(e) = rt.load_retain_store() {
+                return Err(RepEnd::Infra(format!("load_retain_store: {e:?}")));
+            }
+        }
+        let clock = AnyClock {
+            inner: match clock_kind {
+                0 => Inner::Std(StdClock::new()),
+                1 => Inner::Manual(ManualClock::new()),
+                _ => Inner::Manual(shared_clock.clone()),
+            },
+            iters: Arc::new(AtomicU64::new(0)),
+        };
+        let mut runner = ResourceRunner::new(rt, clock.clone(), Duration::from_nanos(s.interval_ns));
+        if res.gated {
+            if let Some(g) = gate {
+                runner = runner.with_start_gate(g.clone());
+            }
+        }
+        runners.push((runner, cell, log, clock));
+    }
+    Ok(Prepared { runners, shared, cycle_log })
+}
+
+/// The data invariants ("no lost update", "snapshot atomic with its write-back") on the
+/// counters of the drivers, the cycle log and the shared map. Valid whenever no cycle is in
+/// flight: after all threads are joined, or between two ticks of the single-threaded driver.
+pub fn evaluate(s: &Script, cells: &[Arc<Cell>], log: &CycleLog, shared: &SharedGlobals) -> Result<(), String> {
+    let get = |name: &str| -> Result<i64, String> {
+        match shared.get(name) {
+            Some(v) => val_i64(&v).ok_or_else(|| format!("infrastructure: shared {name} holds {v:?}")),
+            None => Err(format!("infrastructure: shared {name} missing")),
+        }
+    };
+    let n_final: Vec<i64> = cells.iter().map(|c| c.n.load(SeqCst)).collect();
+    for (i, c) in cells.iter().enumerate() {
+        let bad = c.bad.load(SeqCst);
+        if bad != 0 {
+            return Err(format!(
+                "resource {i} saw a half-updated pair (a_k <> b_k) in the snapshot of {bad} of its {} cycles",
+                n_final[i]
+            ));
+        }
+        let hbad = c.hbad.load(SeqCst);
+        if hbad != 0 {
+            return Err(format!(
+                "resource {i} started {hbad} of its {} cycles from a snapshot that breaks the handshake invariant (sent - handled = 1 exactly while req is TRUE): an update of req, sent or handled was lost",
+                n_final[i]
+            ));
+        }
+    }
+    for j in 0..s.counters.len() {
+        let c = get(&format!("c{j}"))?;
+        let want = s.counters[j] + s.resources.iter().zip(&n_final).map(|(r, n)| r.weights[j] * *n).sum::<i64>();
+        if c != want {
+            let w: Vec<i64> = s.resources.iter().map(|r| r.weights[j]).collect();
+            return Err(format!(
+                "lost update: shared counter c{j} = {c}, but initial {} + sum(weights {w:?} x executed bodies {n_final:?}) = {want}",
+                s.counters[j]
+            ));
+        }
+    }
+    for k in 0..s.pairs.len() {
+        let a = get(&format!("a{k}"))?;
+        let b = get(&format!("b{k}"))?;
+        let want = s.pairs[k]
+            + s.resources
+                .iter()
+                .zip(&n_final)
+                .map(|(r, n)| if r.pair_mask & (1 << k) != 0 { *n } else { 0 })
+                .sum::<i64>();
+        if a != b || a != want {
+            return Err(format!("pair {k}: a{k} = {a}, b{k} = {b}, expected both = {want} (bodies {n_final:?})"));
+        }
+    }
+    // the chain: every executed body started from exactly what the previous one (in the order
+    // of the cycles under the lock) left behind
+    let entries = log.entries.lock().unwrap();
+    let mut prev: [i64; 6] = NON_MONOTONE_INIT;
+    let mut prev_who: Option<(u8, i32)> = None;
+    for (idx, e) in entries.iter().enumerate() {
+        for v in 0..6 {
+            if e.o[v] as i64 != prev[v] {
+                let left = match prev_who {
+                    Some((r, n)) => format!("the previous cycle under the lock (body {n} of resource {r}) left {} = {}", NON_MONOTONE[v], prev[v]),
+                    None => format!("the initial value of {} is {}", NON_MONOTONE[v], prev[v]),
+                };
+                return Err(format!(
+                    "lost update / stale snapshot: body {} of resource {} (cycle {idx} in lock order) started from {} = {}, but {left}; start values {:?} vs left behind {:?} (order {:?})",
+                    e.n, e.res, NON_MONOTONE[v], e.o[v], e.o, prev, NON_MONOTONE
+                ));
+            }
+        }
+        // what the body itself must have produced from its snapshot
+        let res = &s.resources[e.res as usize];
+        let mut want = [e.res as i64, e.n as i64, res.flag_val as i64, e.o[3] as i64, e.o[4] as i64, e.o[5] as i64];
+        if res.producer && e.o[3] == 0 {
+            want[3] = 1;
+            want[4] += 1;
+        } else if !res.producer && e.o[3] == 1 {
+            want[3] = 0;
+            want[5] += 1;
+        }
+        for v in 0..6 {
+            if e.e[v] as i64 != want[v] {
+                return Err(format!(
+                    "infrastructure: body {} of resource {} left {} = {} where its program computes {} from its snapshot",
+                    e.n, e.res, NON_MONOTONE[v], e.e[v], want[v]
+                ));
+            }
+            prev[v] = e.e[v] as i64;
+        }
+        prev_who = Some((e.res, e.n));
+    }
+    if !log.truncated.load(SeqCst) {
+        for v in 0..6 {
+            let now = get(NON_MONOTONE[v])?;
+            if now != prev[v] {
+                let who = match prev_who {
+                    Some((r, n)) => format!("the last cycle under the lock (body {n} of resource {r}) left {}", prev[v]),
+                    None => format!("no body ran and the initial value is {}", prev[v]),
+                };
+                return Err(format!(
+                    "lost update: shared {} = {now}, but {who} (w = last writer, ws = its sequence number)",
+                    NON_MONOTONE[v]
+                ));
+            }
+        }
+        let (req, sent, handled) = (prev[3], prev[4], prev[5]);
+        if sent - handled != req {
+            return Err(format!("handshake broken: sent = {sent}, handled = {handled}, req = {req}"));
+        }
+    }
+    Ok(())
+}
+
+/// Single-threaded driver: the runners of a script ticked with `tick_with_shared` in a fixed
+/// order; the data invariants are evaluated after every tick.
+pub fn run_ticks(s: &Script, order: &[u8]) -> RepEnd {
+    let Prepared { mut runners, shared, cycle_log } = match prepare(s, 1, None) {
+        Ok(p) => p,
+        Err(e) => return e,
+    };
+    let cells: Vec<Arc<Cell>> = runners.iter().map(|r| r.1.clone()).collect();
+    for (k, who) in order.iter().enumerate() {
+        let i = *who as usize % runners.len();
+        if let Some(c) = runners[i].3.manual() {
+            c.advance(Duration::from_millis(1));
+        }
+        // a faulting cycle returns Err; the data invariants hold regardless
+        let _ = runners[i].0.tick_with_shared(&shared);
+        if let Err(m) = evaluate(s, &cells, &cycle_log, &shared) {
+            return data_err(format!("{}after tick {k} (resource {i}) of order {order:?}: {m}", if m.starts_with("infrastructure:") { "infrastructure: " } else { "" }));
+        }
+    }
+    RepEnd::Ok(RepStats::default())
+}
+
 impl<'a> Rig<'a> {
     fn build(s: &'a Script) -> Result<Rig<'a>, RepEnd> {
-        let n = s.resources.len();
-        let mut runtimes = Vec::new();
-        for i in 0..n {
-            let src = source_for(s, i);
-            match TestHarness::from_source(&src) {
-                Ok(h) => runtimes.push(h.into_runtime()),
-                Err(e) => return Err(RepEnd::Infra(format!("generated source rejected: {e:?}\n{src}"))),
-            }
-        }
-        let names: Vec<SmolStr> = s.shared_names().into_iter().map(SmolStr::new).collect();
-        let shared = match SharedGlobals::from_runtime(names, &runtimes[0]) {
-            Ok(x) => x,
-            Err(e) => return Err(RepEnd::Infra(format!("SharedGlobals::from_runtime: {e:?}"))),
-        };
         let gate = if s.any_gated() { Some(Arc::new(StartGate::new())) } else { None };
-        let shared_clock = ManualClock::new();
+        let Prepared { runners: prepared, shared, cycle_log } = prepare(s, s.clock, gate.as_ref())?;
         let (join_tx, join_rx) = mpsc::channel();
         let mut live = Vec::new();
-        let mut prepared = Vec::new();
-        for (i, mut rt) in runtimes.into_iter().enumerate() {
-            let res = &s.resources[i];
-            let cell = Arc::new(Cell::default());
-            let log = Arc::new(StoreLog::default());
-            rt.add_io_driver("c20", Box::new(Drv { cell: cell.clone() }));
-            rt.set_retain_store(
-                Some(Box::new(Store { log: log.clone(), spin: res.store_spin, init: res.retain_init })),
-                res.retain_interval_ns.map(Duration::from_nanos),
-            );
-            if res.load_retain {
-                if let Err(e) = rt.load_retain_store() {
-                    return Err(RepEnd::Infra(format!("load_retain_store: {e:?}")));
-                }
-            }
-            let clock = AnyClock {
-                inner: match s.clock {
-                    0 => Inner::Std(StdClock::new()),
-                    1 => Inner::Manual(ManualClock::new()),
-                    _ => Inner::Manual(shared_clock.clone()),
-                },
-                iters: Arc::new(AtomicU64::new(0)),
-            };
-            let mut runner = ResourceRunner::new(rt, clock.clone(), Duration::from_nanos(s.interval_ns));
-            if res.gated {
-                runner = runner.with_start_gate(gate.clone().expect("gate"));
-            }
-            prepared.push((runner, cell, log, clock));
-        }
         // nothing can fail between here and the end of the spawns except the spawn itself
         for (i, (runner, cell, log, clock)) in prepared.into_iter().enumerate() {
             let handle = match runner.spawn_with_shared(format!("c20-r{i}"), shared.clone()) {
@@ -403,6 +606,7 @@ impl<'a> Rig<'a> {
             stats: RepStats::default(),
             last_counter: s.counters.clone(),
             op_idx: 0,
+            cycle_log,
         })
     }
 
@@ -1002,12 +1206,6 @@ impl<'a> Rig<'a> {
                     ));
                 }
             }
-            let bad = l.cell.bad.load(SeqCst);
-            if bad != 0 {
-                return err_v(format!(
-                    "resource {i} saw a half-updated pair (a_k <> b_k) in the snapshot of {bad} of its {n} cycles"
-                ));
-            }
             if let Some((s0, at)) = l.window {
                 if started != s0 {
                     return err_v(format!(
@@ -1062,31 +1260,10 @@ impl<'a> Rig<'a> {
                 }
             }
         }
-        for j in 0..s.counters.len() {
-            let c = self.get_i64(&format!("c{j}"))?;
-            let want = self.expected_counter(j, &n_final);
-            if c != want {
-                let w: Vec<i64> = s.resources.iter().map(|r| r.weights[j]).collect();
-                return err_v(format!(
-                    "lost update: shared counter c{j} = {c} after join, but initial {} + sum(weights {w:?} x executed bodies {n_final:?}) = {want}",
-                    s.counters[j]
-                ));
-            }
-        }
-        for k in 0..s.pairs.len() {
-            let a = self.get_i64(&format!("a{k}"))?;
-            let b = self.get_i64(&format!("b{k}"))?;
-            let want = s.pairs[k]
-                + s.resources
-                    .iter()
-                    .zip(&n_final)
-                    .map(|(r, n)| if r.pair_mask & (1 << k) != 0 { *n } else { 0 })
-                    .sum::<i64>();
-            if a != b || a != want {
-                return err_v(format!(
-                    "pair {k} after join: a{k} = {a}, b{k} = {b}, expected both = {want} (bodies {n_final:?})"
-                ));
-            }
+        let cells: Vec<Arc<Cell>> = self.live.iter().map(|l| l.cell.clone()).collect();
+        evaluate(s, &cells, &self.cycle_log, &self.shared).map_err(data_err)?;
+        if self.cycle_log.truncated.load(SeqCst) {
+            self.stats.log_truncated = true;
         }
         self.stats.overlapped = self.live.iter().filter(|l| l.f_last > l.f_first).count();
         Ok(())
